@@ -208,6 +208,11 @@ def orientedSize (o : Nat) (w h : Nat) : Nat × Nat := if 5 ≤ o ∧ o ≤ 8 th
 /-- `Region::apply_orientation` (`region.rs:233`): maps both corners, re-orders them.
 `imgW`, `imgH` are the coded image dimensions (`image_header.size`). -/
 def applyOrientation (r : Region) (imgW imgH : Nat) (o : Nat) : Region :=
+  -- an empty request stays empty (sides swapped for orientations 5..8); repaired behaviour,
+  -- before it the corner arithmetic below produced a 2x2 region
+  if r.width = 0 ∨ r.height = 0 then
+    (if o ≥ 5 then ⟨0, 0, r.height, r.width⟩ else ⟨0, 0, r.width, r.height⟩)
+  else
   let (W, H) := orientedSize o imgW imgH
   let p := orientPoint o W H r.left r.top
   let q := orientPoint o W H (r.left + r.width - 1) (r.top + r.height - 1)
